@@ -276,30 +276,41 @@ func Templates() []Template {
 		cin, cout := rw.Range(1, 2), rw.Range(2, 3)
 		var x, k *val.V
 		var attrs []mb.Attr
+		// attributes are drawn independently so that combinations occur (auto_pad with strides, strides with
+		// dilations ...): the paddings auto_pad derives inside Apply depend on strides, kernel and input shape
+		nsp := 1
 		if twoD {
-			x = RandF32(rd, []int{b, cin, 4, 4}, -2, 2)
+			nsp = 2
+			x = RandF32(rd, []int{b, cin, 5, 4}, -2, 2)
 			k = RandF32(rw, []int{cout, cin, 2, 2}, -1, 1)
-			switch rw.Intn(6) {
-			case 0:
-				attrs = append(attrs, mb.AInts("pads", 1, 1, 1, 1))
-			case 1:
-				attrs = append(attrs, mb.AInts("strides", 2, 2))
-			case 2:
-				attrs = append(attrs, mb.AInts("kernel_shape", 2, 2), mb.AInts("dilations", 1, 1))
-			case 3, 4:
-				// auto_pad: the paddings are computed inside Apply from the input's shape and kept in the operator
-				attrs = append(attrs, mb.AS("auto_pad", pick(rw, "SAME_UPPER", "SAME_LOWER", "VALID")))
-			}
 		} else {
 			x = RandF32(rd, []int{b, cin, 6}, -2, 2)
 			k = RandF32(rw, []int{cout, cin, 3}, -1, 1)
-			switch rw.Intn(5) {
-			case 0:
-				attrs = append(attrs, mb.AInts("pads", 1, 1))
-			case 1:
-				attrs = append(attrs, mb.AInts("strides", 2))
-			case 2, 3:
-				attrs = append(attrs, mb.AS("auto_pad", pick(rw, "SAME_UPPER", "SAME_LOWER", "VALID")))
+		}
+		rep := func(v int64) []int64 {
+			o := make([]int64, nsp)
+			for i := range o {
+				o[i] = v
+			}
+			return o
+		}
+		autoPad := rw.Chance(2, 5)
+		if autoPad {
+			attrs = append(attrs, mb.AS("auto_pad", pick(rw, "SAME_UPPER", "SAME_LOWER", "VALID")))
+		} else if rw.Chance(1, 3) {
+			attrs = append(attrs, mb.AInts("pads", append(rep(1), rep(1)...)...))
+		}
+		if rw.Chance(1, 2) {
+			attrs = append(attrs, mb.AInts("strides", rep(int64(rw.Range(1, 3)))...))
+		}
+		if rw.Chance(1, 4) {
+			attrs = append(attrs, mb.AInts("dilations", rep(int64(rw.Range(1, 2)))...))
+		}
+		if rw.Chance(1, 4) {
+			if twoD {
+				attrs = append(attrs, mb.AInts("kernel_shape", 2, 2))
+			} else {
+				attrs = append(attrs, mb.AInts("kernel_shape", 3))
 			}
 		}
 		ops := []Operand{data(x, 0), weight(k)}
